@@ -13,7 +13,6 @@ ASSUMPTIONS = [
     "read buffer are modelled and compared with Go on every case; proved only per key: printable ASCII, CR and the "
     "two paste markers decode to the keys of the theorem, a cut marker waits for the next Read",
     "editing/history keys (Backspace, ^U, ^W, ^K, ^L, arrows, Home/End) are outside the quantifier: the cursor is at the end of the line",
-    "typed input: no printable key arrives while the line holds exactly maxLineLength (4096) runes (hypothesis `fits`); pasted input has no limit",
     "string literals contain no backslash and no line break (an Enter inside a literal is entered as a space by the console)",
     "strings.TrimSpace = trimming unicode.IsSpace runes on both ends; []rune->string maps surrogates to U+FFFD",
 ]
@@ -213,6 +212,28 @@ def gen_inscope(rng, tier):
                     breaks[p] = rng.choice([1, 1, 1, 2, 3])
         cases.append(inscope_case(rng, units, breaks, rng.choice(["typed", "pasted", "mixed"]),
                                   rng.choice(["one", "random", "random", "bytes"]), "multi-" + style))
+    # statements longer than 4096 runes, typed on one line or across several: until /repo removed
+    # maxLineLength the console dropped every typed key beyond the 4096th silently
+    for i in range(3 if tier == "quick" else 12):
+        segs = []
+        total = 0
+        target = rng.choice([4097, 4200, 5000, 9000])
+        while total < target:
+            if rng.chance(0.3):
+                t = (gen_literal(rng), True)
+            else:
+                t = (rng.choice(WORDS), False)
+            segs += [t, (" ", False)]
+            total += len(t[0]) + 1
+        segs.append((";", False))
+        units = [(segs, ""), (gen_statement(rng), "")]
+        pos, elems = legal_positions(units)
+        breaks = {}
+        if i % 3:
+            for p_ in pos:
+                if rng.chance(0.01):
+                    breaks[p_] = 1
+        cases.append(inscope_case(rng, units, breaks, "typed" if i % 2 == 0 else "mixed", "one", "long-statement"))
     return cases
 
 
@@ -291,15 +312,15 @@ def gen_raw(rng, tier):
         base = rng.choice([4090, 4095, 4096, 4097, 4100, 4200])
         body = [rng.choice([97, 98, 32, 49]) for _ in range(base)]
         variant = i % 6
-        if variant == 0:       # typed: keys beyond 4096 are dropped, so the ';' is lost
+        if variant == 0:       # typed beyond the former 4096 limit
             flat = body + [59, 13] + [59, 13]
         elif variant == 1:     # pasted: no limit
             flat = PS + body + [59] + PE + [13]
-        elif variant == 2:     # Enter appends its space even when the line is full
+        elif variant == 2:     # Enter appends its space
             flat = body[:4094] + [13, 13, 13] + [120, 59, 13]
-        elif variant == 3:     # literal cut by the limit
+        elif variant == 3:     # a literal longer than the former limit
             flat = [39] + body + [39, 59, 13, 39, 59, 13]
-        elif variant == 4:     # paste beyond the limit, then typed keys are accepted again (len != 4096)
+        elif variant == 4:     # paste beyond the former limit, then typed keys
             flat = PS + body[:4097] + PE + [120, 59, 13]
         else:                  # multi-byte runes count once
             flat = [b for _ in range(2048) for b in (0xC3, 0xA9)] + body[:2050] + [59, 13, 59, 13]
